@@ -478,8 +478,19 @@ def _r2(ctx):
             roots.add(r)
     ctx.floor("R2", "JSON responders", len(roots), 1)
     J = Json(ctx)
+    cg = callgraph(P)
     for r in sorted(roots):
-        for b in P.family(r):
+        # the responder, its closures, and the functions of the same file it calls or hands to an adaptor (`.map(render_lease)`)
+        scope = list(P.family(r))
+        seen = {b.id for b in scope}
+        for fid in sorted(cg.reachable([b.id for b in scope])):
+            fb = P.bodies.get(fid)
+            if fb is not None and fid not in seen and fb.file == P.bodies[r].file and not J.is_sanitiser(fid):
+                for b2 in P.family(fid):
+                    if b2.id not in seen:
+                        seen.add(b2.id)
+                        scope.append(b2)
+        for b in scope:
             for site in fmt_sites(P, b):
                 # only format sites that produce values (format!), not log macros: result flows to std::fmt::format
                 tm = b.blocks[site.bb]["term"]
